@@ -277,21 +277,4 @@ theorem sRunStFx_append (fx : Fixes) (cfg : Cfg) : ∀ (a b : List (Op × Ora)) 
 theorem idsBelow_init : IdsBelow Spec.init.l := by
   intro kv hkv; simp [Spec.init] at hkv
 
-/-- `C07_partial` on the model of the committed code, from the pre-repair version -/
-theorem c07_partial_committed (h : List Op) (hf : flatRun Live.init h = true) (ora : Ora) (n : Nat) :
-    viewOfFx fxc (runStFx fxc {} St.init (quiet h ++ [(Op.crash, ora)])).fs [n] =
-      sView (sRunStFx fxc {} Spec.init (quiet h ++ [(Op.crash, ora)])).l [n] := by
-  obtain ⟨_, hD⟩ := flat_states h St.init Spec.init R_init D_init hf
-  rw [runStFx_append, sRunStFx_append]
-  rw [runStFx_c h St.init Live.init R_init (flatRun_fragRun h _ hf)]
-  rw [flat_spec_states h Spec.init rfl idsBelow_init (flatRun_flatRunC h _ hf)]
-  -- the crash step is the same on both models; after it the log is empty
-  show viewOfFx fxc (crash (runSt {} St.init (quiet h)).fs none ora.torn) [n] =
-    sView (sCrash (sRunSt {} Spec.init (quiet h)) none ora.torn).l [n]
-  have hv : viewOfFx fxc (crash (runSt {} St.init (quiet h)).fs none ora.torn) [n] =
-      viewOf (crash (runSt {} St.init (quiet h)).fs none ora.torn) [n] :=
-    viewOfFx_c (s := crash _ none ora.torn) NoRN.nil (fun _ => trivial) [n]
-  rw [hv]
-  exact crash_view hD ora.torn ora.torn n
-
 end TV.Fs
